@@ -3,10 +3,13 @@ package pdsim
 import (
 	"errors"
 	"fmt"
+	"runtime"
 	"sort"
+	"strings"
 	"time"
 
 	"github.com/youzan/ZanRedisDB/cluster"
+	"github.com/youzan/ZanRedisDB/common"
 )
 
 // ---------------------------------------------------------------------------
@@ -35,15 +38,19 @@ type part struct {
 	// history for the oracle
 	usedIDs map[uint64]string // replica id -> node it was given to
 	// injected register faults
-	failWrites int // next writes fail without being applied
-	lostAcks   int // next writes are applied but report an error
+	conflictNext int // a concurrent writer bumps the epoch at the next direct read
+	failWrites   int // next writes fail without being applied
+	lostAcks     int // next writes are applied but report an error
 	// ground truth of the simulated raft group
 	bootstrapped bool
 	members      map[string]uint64 // node id -> replica id (committed membership)
+	memCache     []*common.MemberInfo
 	joinSeen     map[string]time.Time
 	removeSeen   map[string]time.Time
 	syncedAt     map[string]time.Time
 	lastSync     map[string]syncAns // node id -> most recent is-raft-synced answer
+	balPollFirst time.Time          // the balancer's wait loop: first and last poll of the current streak
+	balPollLast  time.Time
 	// tail
 	recovered bool
 }
@@ -143,8 +150,16 @@ func (r *fakeReg) GetAllPDNodes() ([]cluster.NodeInfo, error) {
 
 func (r *fakeReg) GetNamespacePartInfo(ns string, pid int) (*cluster.PartitionMetaInfo, error) {
 	s := r.s
+	fromBalancerWait := callerIs(".addNodeToNamespaceAndWaitReady")
 	s.mu.Lock()
 	defer s.mu.Unlock()
+	if p := s.partLocked(ns, pid); p != nil && fromBalancerWait {
+		now := time.Now()
+		if p.balPollLast.IsZero() || now.Sub(p.balPollLast) > time.Minute {
+			p.balPollFirst = now
+		}
+		p.balPollLast = now
+	}
 	// the etcd register serves this from its cache: during an outage the last
 	// successfully scanned content is returned
 	if s.regDownLocked() && s.stale != nil {
@@ -164,6 +179,15 @@ func (r *fakeReg) GetRemoteNamespaceReplicaInfo(ns string, pid int) (*cluster.Pa
 	defer s.mu.Unlock()
 	if s.regDownLocked() {
 		return nil, errRegDown
+	}
+	if p := s.partLocked(ns, pid); p != nil && p.cur != nil && p.conflictNext > 0 {
+		// a concurrent writer (another placement driver) rewrote the entry just
+		// before this direct read: same content, new epoch. Whatever the
+		// coordinator derived from its earlier scan must now fail its CAS. Stays
+		// armed until the coordinator attempts a write of this partition.
+		s.idx++
+		p.cur.VerifSetEpoch(cluster.EpochType(s.idx))
+		s.stats["fault.register_concurrent_write"]++
 	}
 	i, err := s.partInfoLocked(ns, pid)
 	if err != nil {
@@ -203,8 +227,26 @@ func (r *fakeReg) GetNamespaceInfo(ns string) ([]cluster.PartitionMetaInfo, erro
 	return l, nil
 }
 
+func callerIs(suffix string) bool {
+	var pcs [6]uintptr
+	n := runtime.Callers(3, pcs[:])
+	fr := runtime.CallersFrames(pcs[:n])
+	for {
+		f, more := fr.Next()
+		if strings.HasSuffix(f.Function, suffix) {
+			return true
+		}
+		if !more {
+			return false
+		}
+	}
+}
+
 func (r *fakeReg) GetAllNamespaces() (map[string]map[int]cluster.PartitionMetaInfo, cluster.EpochType, error) {
 	s := r.s
+	if callerIs(".getCurrentPartitionNodes") && s.wouldLayoutPanic() {
+		return nil, 0, errors.New("sim: read failed (layout computation suppressed)")
+	}
 	s.mu.Lock()
 	defer s.mu.Unlock()
 	if s.regDownLocked() {
@@ -490,6 +532,9 @@ func (r *fakeReg) UpdateNamespacePartReplicaInfo(ns string, pid int, ri *cluster
 		s.bufLocked(ns, pid, "w.regdown", "")
 		return errRegDown
 	}
+	if p.conflictNext > 0 {
+		p.conflictNext--
+	}
 	if p.failWrites > 0 {
 		p.failWrites--
 		s.stats["fault.register_write_fail"]++
@@ -521,7 +566,6 @@ func (r *fakeReg) UpdateNamespacePartReplicaInfo(ns string, pid int, ri *cluster
 	p.cur = &nv
 	p.curSeq = s.seq
 	p.nvers++
-	s.nsChangedLocked()
 	if p.lostAcks > 0 {
 		p.lostAcks--
 		s.stats["fault.register_lost_ack"]++
@@ -531,8 +575,6 @@ func (r *fakeReg) UpdateNamespacePartReplicaInfo(ns string, pid int, ri *cluster
 	ri.VerifSetEpoch(cluster.EpochType(s.idx))
 	return nil
 }
-
-func (s *coordSim) nsChangedLocked() {}
 
 func (r *fakeReg) PrepareNamespaceMinGID() (int64, error) {
 	s := r.s
